@@ -40,6 +40,24 @@ def gen_pair(r):
         for j in range(k):
             sspec.append({"p": "emptydir%d" % j, "k": "d"})
             dspec.append({"p": "extra%d.dat" % j, "k": "f", "data": b"extra", "mt_ns": 10**9})
+    if r.random() < 0.4:
+        # symbolic links: equal on both sides (to a directory, to a file, dangling), other target, link on one side and a file on the other
+        for j in range(r.randrange(1, 4)):
+            name = "lnk%d" % j
+            tgt = r.choice(["sub", "a", "nowhere", "../outside", "n1", "/etc/hostname", "."])
+            cls = r.choice(["same", "same", "same", "other-target", "file-in-dst", "file-in-src", "only-src", "only-dst"])
+            if cls in ("same", "other-target", "file-in-dst", "only-src"):
+                sspec.append({"p": name, "k": "l", "target": tgt})
+            if cls == "same":
+                dspec.append({"p": name, "k": "l", "target": tgt})
+            elif cls == "other-target":
+                dspec.append({"p": name, "k": "l", "target": tgt + "x"})
+            elif cls == "file-in-dst":
+                dspec.append({"p": name, "k": "f", "data": tgt.encode(), "mt_ns": 10**9})
+            elif cls == "file-in-src":
+                sspec.append({"p": name, "k": "f", "data": tgt.encode(), "mt_ns": 10**9}); dspec.append({"p": name, "k": "l", "target": tgt})
+            elif cls == "only-dst":
+                dspec.append({"p": name, "k": "l", "target": tgt})
     conflict = None
     if r.random() < 0.15:
         # type conflict: a directory in one tree, a file of the same name in the other
@@ -91,6 +109,9 @@ def ventries(listing, snap, ids):
             out.append("d:%s:0:0" % ids.path(rel))
         elif kind == "f":
             out.append("f:%s:%d:%d" % (ids.path(rel), e["size"], ids.content(e["sha"], e["size"])))
+        elif kind == "l" and e["kind"] == "l":
+            # a symbolic link is a file whose content is its target text (never read through)
+            out.append("f:%s:%d:%d" % (ids.path(rel), len(e["target"].encode()), ids.content("L:" + e["target"], len(e["target"].encode()))))
     return ",".join(out) or "-"
 
 
@@ -145,8 +166,9 @@ def run(tier, seed):
             if ch:
                 viol.append({"world": i, "why": "--verify-only modified a tree", "paths": ch[:5]})
             # oracle: the true sets
-            sfiles = {p: e for p, e in bs.items() if e["kind"] == "f"}
-            dfiles = {p: e for p, e in bd.items() if e["kind"] == "f"}
+            lk = lambda e: dict(e, sha="L:" + e["target"]) if e["kind"] == "l" else e
+            sfiles = {p: lk(e) for p, e in bs.items() if e["kind"] in "fl"}
+            dfiles = {p: lk(e) for p, e in bd.items() if e["kind"] in "fl"}
             # a source file whose path is a DIRECTORY in the destination exists on both sides and differs: a mismatch;
             # a destination file whose path is a directory in the source has no counterpart: destination-only
             true_mis = sorted(p for p in sfiles if (p in dfiles and sfiles[p]["sha"] != dfiles[p]["sha"]) or (p in bd and bd[p]["kind"] == "d"))
@@ -155,9 +177,8 @@ def run(tier, seed):
             same = not (true_mis or true_os or true_od)
             got = (sorted(ev["files_mismatched"]), sorted(ev["files_only_in_source"]), sorted(ev["files_only_in_dest"]))
             want_exit = 0 if same else 1
-            ok = (rr["rc"] == want_exit and got == (true_mis, true_os, true_od)) or rr["rc"] == 2
-            if rr["rc"] == 2 and not ev["errors"]:
-                ok = False
+            # (nothing in these trees is unreadable -- the checks run as root --, so exit 2 and an errors list never apply)
+            ok = rr["rc"] == want_exit and got == (true_mis, true_os, true_od) and not ev["errors"]
             if not ok:
                 klass = None
                 fl = {"world": i, "mode": mode, "why": "exit %s / lists %r, true sets %r" % (rr["rc"], got, (true_mis, true_os, true_od)), "klass": klass}
@@ -168,6 +189,42 @@ def run(tier, seed):
                 nontriv.add((mode, tuple(true_mis), tuple(true_os), tuple(true_od)))
             if len(samples) < 3:
                 samples.append({"mode": mode, "exit": rr["rc"], "mismatched": ev["files_mismatched"], "only_src": ev["files_only_in_source"], "only_dst": ev["files_only_in_dest"]})
+        # two FILES as arguments (equal, different with equal size and mtime, other size, destination missing, destination a directory)
+        # and a destination that holds sy's own files after a complete sync: through the binary, judged by the statement
+        nsingle = 0
+        for i in range(10 if tier == "quick" else 60):
+            base = os.path.join(sc.dir, "sf%d" % i); os.makedirs(base)
+            a, b = base + "/one.bin", base + "/two.bin"
+            cls = ["equal", "same-size-mtime", "other-size", "missing", "directory"][i % 5]
+            data = world.pbytes(4000 + i, r.choice([0, 1, 700, 70000]))
+            open(a, "wb").write(data)
+            if cls == "equal":
+                open(b, "wb").write(data)
+            elif cls == "same-size-mtime":
+                open(b, "wb").write(bytes([x ^ 1 for x in data]) if data else b"")
+            elif cls == "other-size":
+                open(b, "wb").write(data + b"!")
+            elif cls == "directory":
+                os.makedirs(b)
+            for f_ in (a, b):
+                if os.path.isfile(f_):
+                    os.utime(f_, ns=(ew.T0NS, ew.T0NS))
+            mode = r.choice(["fast", "standard", "verify", "paranoid"])
+            rr = world.run_sy([a, b, "--verify-only", "--json", "--mode", mode], sc)
+            nsingle += 1
+            same = cls == "equal" or (cls == "same-size-mtime" and not data)
+            if (rr["rc"] == 0) != same or rr["rc"] not in (0, 1):
+                viol.append({"world": "single-file-%d" % i, "class": cls, "mode": mode, "size": len(data), "why": "exit %s for two files that %s" % (rr["rc"], "are equal" if same else "differ"), "stdout": rr["out"][-300:]})
+        for i in range(3 if tier == "quick" else 12):
+            base = os.path.join(sc.dir, "meta%d" % i); src, dst = base + "/src", base + "/dst"
+            sspec, _, _ = gen_pair(r)
+            ew.mk(src, sspec); os.makedirs(src, exist_ok=True); os.makedirs(dst)
+            flags = [["--use-cache=true"], ["--checksum", "--checksum-db=true"], ["--use-cache=true", "--checksum", "--checksum-db=true"]][i % 3]
+            r1 = world.run_sy([src, dst, "-q"] + flags, sc)
+            rr = world.run_sy([src, dst, "--verify-only", "--json"], sc)
+            nsingle += 1
+            if r1["rc"] == 0 and rr["rc"] != 0:
+                viol.append({"world": "after-complete-sync-%d" % i, "flags": flags, "why": "a complete sync (exit 0) with %s, then --verify-only exits %s" % (" ".join(flags), rr["rc"]), "stdout": rr["out"][-400:]})
     model = vlib.run_model(cases)
     for (i, mode, conflict, o, rr, ev, bs, bd, fl), m, case in zip(obs, model, cases):
         same = (o == m)
@@ -182,6 +239,7 @@ def run(tier, seed):
     res.cov["distinct_nontrivial"] = len(nontriv)
     res.cov["model_impl_disagreements"] = len(diffs)
     res.cov["worlds_with_hard_links_regrouped_per_tree"] = nlinked
+    res.cov["single_file_pairs_and_after_sync_runs"] = nsingle
     res.cov["known_finding_hits"] = {k: len(v) for k, v in hits.items()}
     res.cov["rule"] = ("pairs of trees: destination derived per file from the source (same / same size+mtime different bytes / other size / absent / other mtime), destination-only files, missing directories, "
                        "15% with a directory-vs-file conflict; modes fast/standard/verify/paranoid/--checksum; non-trivial = the trees differ; distinct = distinct (mode, true sets)")
